@@ -1,8 +1,12 @@
 SPECIFICATION TraceSpec
 CONSTANTS Contracts = {"A", "B", "C"}
  Sender = "U"
+ Creators = {"U", "A", "B", "C"}
  Slots = {"s1", "s2"}
  DepthLimit = 1024
+ MaxCodeSize = 24576
+ CreateDataGas = 200
+ Precompiles = {"P5"}
  AllowedDev = @ALLOWED_DEV@
 CONSTRAINT HW
 POSTCONDITION Accepted
